@@ -144,10 +144,17 @@ type trustCfg struct {
 	TrustedT bool
 	TrustedU bool
 	Tracing  bool // cluster "enable tracing" option: the RPC server is built with a stats handler
+	// Closed: endpoints this peer's configuration closes on top of the shipped
+	// policy (Config.RPCPolicy is the peer's policy; ipfs-cluster-follow closes
+	// Cluster.RepoGCLocal this way). They are local-only endpoints of this peer.
+	Closed []string
 }
 
 var trustCfgs = []trustCfg{
 	{Name: "raft", Raft: true, TrustedT: true, TrustedU: true},
+	{Name: "raft+follower-policy", Raft: true, TrustedT: true, TrustedU: true, Closed: []string{"Cluster.RepoGCLocal"}},
+	{Name: "crdt-list[T]+policy-closing-more", List: func(t, u peer.ID) []peer.ID { return []peer.ID{t} }, TrustedT: true,
+		Closed: []string{"Cluster.RepoGCLocal", "Cluster.Pin", "Cluster.ID", "PinTracker.Track", "IPFSConnector.Pin", "Consensus.LogPin"}},
 	{Name: "crdt-list[T]", List: func(t, u peer.ID) []peer.ID { return []peer.ID{t} }, TrustedT: true},
 	{Name: "crdt-empty-list", List: func(t, u peer.ID) []peer.ID { return nil }},
 	{Name: "crdt-trust-all", TrustAll: true, TrustedT: true, TrustedU: true},
@@ -216,7 +223,21 @@ func buildServer(ctx context.Context, t *testing.T, h host.Host, tc trustCfg, tp
 		cons = cc
 	}
 	p, err := clus.NewPeer(ctx, &clus.PeerParts{Host: h, Consensus: cons, DHT: dht,
-		Cfg: func(c *ipfscluster.Config) { c.Tracing = tc.Tracing }})
+		Cfg: func(c *ipfscluster.Config) {
+			c.Tracing = tc.Tracing
+			if len(tc.Closed) > 0 {
+				// a policy of its own for this peer (the package-level table is
+				// left alone: other configurations run in this process)
+				pol := make(map[string]ipfscluster.RPCEndpointType, len(c.RPCPolicy))
+				for k, v := range c.RPCPolicy {
+					pol[k] = v
+				}
+				for _, k := range tc.Closed {
+					pol[k] = ipfscluster.RPCClosed
+				}
+				c.RPCPolicy = pol
+			}
+		}})
 	if err != nil {
 		t.Fatal(err)
 	}
@@ -315,10 +336,18 @@ func TestRPCMatrix(t *testing.T) {
 					key := func(sym string) string {
 						return fmt.Sprintf("C07|%s|%s|%s|%s", e.name(), c.name, tc.Name, sym)
 					}
+					closedHere := false
+					for _, k := range tc.Closed {
+						closedHere = closedHere || k == e.name()
+					}
 					switch {
 					case c.self:
 						if denied {
 							R.Violation(key("self-refused"), detail)
+						}
+					case closedHere:
+						if !denied {
+							R.Violation(key("endpoint-closed-by-configuration-open-to-remote"), detail)
 						}
 					case localOnly[e.name()]:
 						if !denied {
